@@ -139,6 +139,12 @@ def run (op : String) (a : Json) : Option (Except String Json) :=
       pure <| match encFlagsF fac wrapper loc fuel wrapped v with
         | .ok j => ok (jJ j)
         | .error e => jErr e
+  | "dict.isopt" => some do
+      let req ← OpsBind.dBool (field a "required")
+      let d ← OpsBind.dDefault (field a "default")
+      let v ← dVal (field a "value")
+      let var : XmlVar := { toVarCore := { leafVar "x".toList with required := req, default := d }, elements := [], wildcards := [] }
+      pure (ok (Json.bool (isOptional var v)))
   | "dict.enc" => some do
       let Γ ← dCtx (field a "ctx")
       let v ← dVal (field a "value")
